@@ -677,14 +677,78 @@ def pess_demote_phi(rng, fn, count):
     return done
 
 
-def pessimize(rng, mod, addzero=3, cjump=2, demote=2, demote_phi=1, constexpr=3):
+NARROWER = {"i16": ["i8", "u8"], "u16": ["i8", "u8"], "i32": ["i8", "u8", "i16", "u16"],
+            "u32": ["i8", "u8", "i16", "u16"], "i64": ["i8", "u8", "i16", "u16", "i32", "u32"],
+            "u64": ["i8", "u8", "i16", "u16", "i32", "u32"]}
+
+
+def pess_punstore(rng, fn, count):
+    """mixed-width accesses to one address (little endian): after `store T v p` a NARROWER store of the low
+    bytes of v to the same address value (re-writes bytes that are already there), or before it a narrower
+    store of v's low bytes (overwritten at once).  Both keep the behaviour; a pass that takes the narrow store
+    for a full overwrite of the wide one loses bytes."""
+    nm = Namer(fn)
+    done = 0
+    cands = [(b, i) for b in blocks_of(fn) for i in b[2:]
+             if i[0] in ("store", "vstore") and isinstance(i[1], str) and i[1] in NARROWER and i[2].startswith("%")]
+    rng.shuffle(cands)
+    for b, st in cands:
+        if done >= count:
+            break
+        k = next(k for k in range(2, len(b)) if b[k] is st)
+        n = rng.choice(NARROWER[st[1]])
+        c = nm.val("pn")
+        new = [["cast", "%" + c, n, st[2]], [rng.choice(["store", "store", "vstore"]), n, "%" + c, st[3]]]
+        if rng.random() < 0.7:
+            b[k + 1:k + 1] = new          # wide, then narrow
+        else:
+            b[k:k] = new                  # narrow, then wide
+        done += 1
+    return done
+
+
+def pess_expose(rng, mod, fn, count):
+    """the final bytes of a stack slot become observable: a fresh global receives a copy of the slot right before
+    every return of the function"""
+    nm = Namer(fn)
+    done = 0
+    gnames = {v[1] for v in mod[3][1:]} | {f[1] for f in funcs_of(mod)} | {e[1] for e in mod[2][1:]}
+    eb = _entry_block(fn)
+    allocs = [i for i in eb[2:] if i[0] == "alloc"]
+    rng.shuffle(allocs)
+    for al in allocs:
+        if done >= count:
+            break
+        a = al[1]
+        ad = next((i for i in eb[2:] if i[0] == "addrof" and i[2] == a), None)
+        if ad is None:
+            ad = ["addrof", "%" + nm.val("pq"), a]
+            eb.insert(next(k for k in range(2, len(eb)) if eb[k] is al) + 1, ad)
+        g = f"pdump_{fn[1]}_{done}"
+        while g in gnames:
+            g += "x"
+        gnames.add(g)
+        mod[3].append(["var", g, "global", al[2], al[3]])
+        for b in blocks_of(fn):
+            if len(b) > 2 and b[-1][0] in ("ret", "exit"):
+                b.insert(len(b) - 1, ["copyblob", "@" + g, ad[1], al[2]])
+        done += 1
+    return done
+
+
+def pessimize(rng, mod, addzero=3, cjump=2, demote=2, demote_phi=1, constexpr=3, punstore=2, expose=1):
     """in place; returns counts"""
-    counts = {"addzero": 0, "cjump": 0, "demote": 0, "demote_phi": 0, "constexpr": 0}
+    counts = {"addzero": 0, "cjump": 0, "demote": 0, "demote_phi": 0, "constexpr": 0, "punstore": 0, "expose": 0}
     for fn in funcs_of(mod):
+        if expose:
+            counts["expose"] += pess_expose(rng, mod, fn, rng.randint(0, expose))
+
         if demote_phi:
             counts["demote_phi"] += pess_demote_phi(rng, fn, rng.randint(0, demote_phi))
         if demote:
             counts["demote"] += pess_demote(rng, fn, rng.randint(0, demote))
+        if punstore:
+            counts["punstore"] += pess_punstore(rng, fn, rng.randint(0, punstore))
         if cjump:
             counts["cjump"] += pess_cjump(rng, fn, rng.randint(0, cjump))
         if constexpr:
